@@ -88,3 +88,155 @@ package apd
 //@   assigns d
 //@   ensures d.Form == old(x.Form) && d.Exponent == old(x.Exponent) && val(d.Coeff) == old(val(x.Coeff)) && result == d
 //@   ensures d.Negative == ite(old(x.Form) == Finite && old(val(x.Coeff)) == 0, false, !old(x.Negative))
+
+//@ func (*BigInt).SetUint64
+//@   trusted layer-1 contract
+//@   assigns z
+//@   ensures val(z) == x && ret == z
+
+//@ func (*BigInt).Neg
+//@   trusted layer-1 contract
+//@   assigns z
+//@   ensures val(z) == -old(val(x)) && ret == z
+
+//@ func (*BigInt).Add
+//@   trusted layer-1 contract
+//@   assigns z
+//@   ensures val(z) == old(val(x)) + old(val(y)) && ret == z
+
+//@ func (*BigInt).Sub
+//@   trusted layer-1 contract
+//@   assigns z
+//@   ensures val(z) == old(val(x)) - old(val(y)) && ret == z
+
+//@ func (*BigInt).Mul
+//@   trusted layer-1 contract
+//@   assigns z
+//@   ensures val(z) == old(val(x)) * old(val(y)) && ret == z
+
+//@ func (*BigInt).Quo
+//@   trusted layer-1 contract
+//@   requires val(y) != 0
+//@   assigns z
+//@   ensures val(z) == tdiv(old(val(x)), old(val(y))) && ret == z
+
+//@ func (*BigInt).Rem
+//@   trusted layer-1 contract
+//@   requires val(y) != 0
+//@   assigns z
+//@   ensures val(z) == tmod(old(val(x)), old(val(y))) && ret == z
+
+//@ func (*BigInt).QuoRem
+//@   trusted layer-1 contract
+//@   requires val(y) != 0 && z != r
+//@   assigns z, r
+//@   ensures val(z) == tdiv(old(val(x)), old(val(y))) && val(r) == tmod(old(val(x)), old(val(y))) && ret0 == z && ret1 == r
+
+//@ func (*BigInt).Cmp
+//@   trusted layer-1 contract
+//@   pure
+//@   ensures ret == sgn(val(z) - val(y))
+
+//@ func (*BigInt).Bit
+//@   trusted layer-1 contract
+//@   pure
+//@   ensures (ret == 0 || ret == 1) && (i == 0 ==> ret == mod(val(z), 2))
+
+//@ func (*BigInt).BitLen
+//@   trusted layer-1 contract
+//@   pure
+//@   ensures ret == bitlen(abs(val(z))) && ret >= 0 && ret < 2147483648
+
+//@ func (*BigInt).IsUint64
+//@   trusted layer-1 contract
+//@   pure
+//@   ensures ret <==> (0 <= val(z) && val(z) < 18446744073709551616)
+
+//@ func (*BigInt).Uint64
+//@   trusted layer-1 contract
+//@   pure
+//@   ensures ret == mod(abs(val(z)), 18446744073709551616)
+
+//@ func (*BigInt).Exp
+//@   trusted assumed math/big contract, base-10 instance only
+//@   nilable m
+//@   assigns z
+//@   ensures (m == nil && old(val(x)) == 10 && old(val(y)) >= 0) ==> (val(z) == pow10(old(val(y))) && ret == z)
+
+// ---------------------------------------------------------------- table.go
+
+//@ global digitsLookupTable[i]: 1 <= i && i <= 128 ==> (1 <= digitsLookupTable[i].digits && digitsLookupTable[i].digits <= 39 && digitsLookupTable[i].digits == nd10(pow2(i - 1)) && val(digitsLookupTable[i].border) == pow10(digitsLookupTable[i].digits) && val(digitsLookupTable[i].nborder) == -pow10(digitsLookupTable[i].digits))
+
+//@ func setBigWithPow
+//@   props C01 C19
+//@   requires pow >= 0 && writable(res)
+//@   assigns res
+//@   ensures val(res) == pow10(pow)
+
+//@ func tableExp10
+//@   props C01 C19 C06
+//@   requires x >= 0 && writable(tmp)
+//@   assigns tmp
+//@   ensures val(ret) == pow10(x) && (ret == tmp || isglobal(ret)) && ret != nil
+
+//@ func NumDigits
+//@   props C19 C01 C04
+//@   pure
+//@   local n assume n >= 1 && pow10(n - 1) <= pow2(bitlen(abs(val(b))) - 1) && pow2(bitlen(abs(val(b)))) <= pow10(n + 1) && n < 1000000000 because float estimate of the digit count (NumDigits >128 bits): checked exhaustively for bit lengths 129..700000 by the bounded stand-in
+//@   ensures ret == nd10(abs(val(b))) && ret >= 1
+
+//@ func (*Decimal).NumDigits
+//@   props C19 C01
+//@   pure
+//@   ensures ret == nd10(abs(val(d.Coeff))) && ret >= 1
+
+// ---------------------------------------------------------------- round.go
+
+//@ define incr(m: rounder, neg: bool, q: int, half: int): bool = ite(m == RoundDown, false, ite(m == RoundHalfUp, half >= 0, ite(m == RoundHalfEven, half > 0 || (half == 0 && mod(q, 2) == 1), ite(m == RoundCeiling, !neg, ite(m == RoundFloor, neg, ite(m == RoundHalfDown, half > 0, ite(m == RoundUp, true, ite(m == Round05Up, mod(q, 10) == 0 || mod(q, 10) == 5, half >= 0))))))))
+
+//@ func roundDown
+//@   props C01 C20
+//@   pure
+//@   ensures ret == false
+//@ func roundUp
+//@   props C01 C20
+//@   pure
+//@   ensures ret == true
+//@ func roundHalfUp
+//@   props C01 C20
+//@   pure
+//@   ensures ret <==> half >= 0
+//@ func roundHalfDown
+//@   props C01 C20
+//@   pure
+//@   ensures ret <==> half > 0
+//@ func roundHalfEven
+//@   props C01 C20
+//@   pure
+//@   ensures ret <==> (half > 0 || (half == 0 && mod(val(result), 2) == 1))
+//@ func roundFloor
+//@   props C01 C20
+//@   pure
+//@   ensures ret <==> neg
+//@ func roundCeiling
+//@   props C01 C20
+//@   pure
+//@   ensures ret <==> !neg
+//@ func round05Up
+//@   props C01 C20
+//@   requires val(result) >= 0
+//@   pure
+//@   ensures ret <==> (mod(val(result), 10) == 0 || mod(val(result), 10) == 5)
+
+//@ func Rounder.ShouldAddOne
+//@   props C01 C20
+//@   requires val(result) >= 0
+//@   pure
+//@   ensures ret <==> incr(r, neg, val(result), half)
+
+//@ func roundAddOne
+//@   props C01 C07
+//@   requires val(b) >= 0 && writable(b) && writable(diff) && *diff < 9223372036854775807 && b != bigOne && b != bigTen
+//@   assigns b, *diff
+//@   ensures old(val(b)) + 1 < pow10(nd10(old(val(b)))) ==> (val(b) == old(val(b)) + 1 && *diff == old(*diff))
+//@   ensures old(val(b)) + 1 >= pow10(nd10(old(val(b)))) ==> (val(b) == pow10(nd10(old(val(b))) - 1) && *diff == old(*diff) + 1)
